@@ -442,15 +442,22 @@ func (msg *Message) MarshalJSON() ([]byte, error) {
 	if len(msg.Signatures) == 1 {
 		// Flattened JWS JSON Serialization
 		sig := msg.Signatures[0]
-		raw["protected"] = string(sig.rawProtected)
+		if sig.protected != nil {
+			raw["protected"] = string(sig.rawProtected)
+		}
+		if sig.header != nil {
+			raw["header"] = sig.header
+		}
 		raw["signature"] = string(sig.b64signature)
 	} else {
 		// Complete JWS JSON Serialization Representation
 		signatures := make([]any, 0, len(msg.Signatures))
 		for _, sig := range msg.Signatures {
 			raw := map[string]any{
-				"protected": string(sig.rawProtected),
 				"signature": string(sig.b64signature),
+			}
+			if sig.protected != nil {
+				raw["protected"] = string(sig.rawProtected)
 			}
 			if sig.header != nil {
 				raw["header"] = sig.header
